@@ -83,6 +83,9 @@ type RunResult struct {
 	Replay     *Replay           `json:"replay,omitempty"`
 	Sample     json.RawMessage   `json:"sample,omitempty"`
 	Extra      map[string]string `json:"extra,omitempty"`
+	// enumerating engines: one run covers many (case, fault point) pairs
+	Cases         int `json:"cases,omitempty"`
+	DistinctCases int `json:"distinct_cases,omitempty"`
 }
 
 // Log is the event log of a run; only its hash is kept. Logging never draws
